@@ -262,8 +262,14 @@ var (
 		{netip.MustParsePrefix("2001:db8:a::/48"), "US", 100},
 		{netip.MustParsePrefix("2001:db8:b::/48"), "JP", 300},
 		{netip.MustParsePrefix("198.18.5.0/24"), "JP", 300},
+		// A country without a known autonomous system.
+		{netip.MustParsePrefix("203.0.113.0/24"), "US", 0},
 	}
+	// Like the file-based database: the subnet of the autonomous system if
+	// the database has one for it, else the subnet of the country.
 	geoSubnets = map[string]netip.Prefix{
+		"asn100/4": netip.MustParsePrefix("100.64.10.0/24"),
+		"asn300/6": netip.MustParsePrefix("2001:db8:ff30::/48"),
 		"US/4": netip.MustParsePrefix("100.64.1.0/24"),
 		"DE/4": netip.MustParsePrefix("100.64.2.0/24"),
 		"US/6": netip.MustParsePrefix("2001:db8:ff01::/48"),
@@ -296,13 +302,25 @@ func (geo) SubnetByLocation(l *geoip.Location, fam netutil.AddrFamily) (n netip.
 	if fam == netutil.AddrFamilyIPv4 {
 		s = "4"
 	}
-	if l != nil {
-		if p, ok := geoSubnets[string(l.Country)+"/"+s]; ok {
-			return p, nil
-		}
+	if p, ok := subnetOfLoc(l, s); ok {
+		return p, nil
 	}
 
 	return netutil.ZeroPrefix(fam), nil
+}
+
+func subnetOfLoc(l *geoip.Location, fam string) (p netip.Prefix, ok bool) {
+	if l == nil {
+		return netip.Prefix{}, false
+	}
+	if l.ASN != 0 {
+		if p, ok = geoSubnets[fmt.Sprintf("asn%d/%s", l.ASN, fam)]; ok {
+			return p, true
+		}
+	}
+	p, ok = geoSubnets[string(l.Country)+"/"+fam]
+
+	return p, ok
 }
 
 // expectedSubnet is what the statement of C05 allows to be sent upstream for
@@ -326,7 +344,7 @@ func expectedSubnet(client netip.Addr, ecs *netip.Prefix) (p netip.Prefix) {
 		l = locOf(client)
 	}
 	if l != nil {
-		if sp, ok := geoSubnets[string(l.Country)+"/"+fs]; ok {
+		if sp, ok := subnetOfLoc(l, fs); ok {
 			return sp
 		}
 	}
@@ -570,7 +588,7 @@ func (st *mwStack) lastCall() upCall { return st.up.calls[len(st.up.calls)-1] }
 
 // ---- the run ----
 
-var clientPool = []string{"192.0.2.10", "192.0.2.20", "198.51.100.5", "203.0.113.9", "2001:db8:a::1", "2001:db8:b::1", "198.18.5.5"}
+var clientPool = []string{"192.0.2.10", "192.0.2.20", "198.51.100.5", "203.0.113.9", "192.168.77.7", "2001:db8:a::1", "2001:db8:b::1", "198.18.5.5"}
 
 type ecsChoice struct {
 	name   string
